@@ -193,6 +193,25 @@ def _enum_types_of(value: object) -> list[type[enum.Enum]]:
     return []
 
 
+def _nameable_exception_type(exc_type: type[BaseException]) -> type[BaseException]:
+    """Provide the exception class under which a raised exception is expected.
+
+    A class that is defined inside a function cannot be referred to from the test
+    file; such an exception is expected as an instance of its nearest base class
+    that can.
+
+    Args:
+        exc_type: The class of the raised exception
+
+    Returns:
+        The first class of the MRO that is reachable by its qualified name
+    """
+    for candidate in exc_type.__mro__:
+        if "<locals>" not in candidate.__qualname__:
+            return candidate
+    return BaseException
+
+
 def _is_expected_exception(stmt: Statement, exc_type: type[BaseException]) -> bool:
     """Check whether ``exc_type`` is declared as expected by the statement's callable.
 
@@ -323,6 +342,7 @@ class TestSuiteWriter:
             if exc_type is None:
                 body.append(stmt.node)
             elif self._no_xfail or _is_expected_exception(stmt, exc_type):
+                nameable_type = _nameable_exception_type(exc_type)
                 wrapped = cst.With(
                     items=[
                         cst.WithItem(
@@ -331,14 +351,16 @@ class TestSuiteWriter:
                                     value=cst.Name("pytest"),
                                     attr=cst.Name("raises"),
                                 ),
-                                args=[cst.Arg(value=cst.Name(exc_type.__name__))],
+                                args=[
+                                    cst.Arg(value=cst.parse_expression(nameable_type.__qualname__))
+                                ],
                             )
                         )
                     ],
                     body=cst.IndentedBlock(body=[stmt.node]),
                 )
                 body.append(wrapped)
-                used_exc_types.add(exc_type)
+                used_exc_types.add(nameable_type)
             else:
                 body.append(stmt.node)
                 is_failing = True
@@ -518,7 +540,10 @@ class TestSuiteWriter:
         by_module: dict[str, list[str]] = {}
         for exc_type in used_exc_types:
             if exc_type.__module__ != "builtins":
-                by_module.setdefault(exc_type.__module__, []).append(exc_type.__name__)
+                # A class nested in a class is reached through the outermost class.
+                by_module.setdefault(exc_type.__module__, []).append(
+                    exc_type.__qualname__.split(".")[0]
+                )
         # Enum members are asserted as ``ClassName.MEMBER``: bind the class as well, if
         # it can be imported under that name.
         for enum_type in used_enum_types:
